@@ -338,6 +338,18 @@ func c09PreparePool(o runOpts, path string) error {
 		}
 		return nil
 	})
+	// truncated inputs: the error a call returns (text and chain included) is part of what it returns; cuts inside
+	// the header at different lengths, inside the data and inside the checksum, of several streams
+	if n := len(spec.Streams); n > 0 {
+		for k := 0; k < 6 && k < n; k++ {
+			src := spec.Streams[(k*7)%n]
+			for _, at := range []int{1, 2, 5, 7, 11, 12, 13, len(src.data) / 2, len(src.data) - 3, len(src.data) - 1} {
+				if at > 0 && at < len(src.data) {
+					add(fmt.Sprintf("cut(%s,%d)", src.ID, at), "truncated", append([]byte{}, src.data[:at]...))
+				}
+			}
+		}
+	}
 	if n := len(spec.Streams); n > 3 {
 		for i := 0; i < 8; i++ {
 			a, c := spec.Streams[rg.intn(n)], spec.Streams[rg.intn(n)]
@@ -405,9 +417,9 @@ func c09Call(c c08Call) string {
 			// is not one of the inputs the property requires to be independent)
 			return c09Decode(c.Entry, c09SharedOpts, c.In.data)
 		}
-		return implDecode(c.Entry, c.Opts, readerSpec{Data: c.In.data}).observable()
+		return implDecode(c.Entry, c.Opts, readerSpec{Data: c.In.data}).withError()
 	default:
-		return implDecode(c.Entry, c.Opts, readerSpec{Data: c.In.data}).observable()
+		return implDecode(c.Entry, c.Opts, readerSpec{Data: c.In.data}).withError()
 	}
 }
 
@@ -428,17 +440,23 @@ func c09Decode(entry string, opts []fit.DecodeOption, data []byte) string {
 		if entry == "D" {
 			f, err := fit.Decode(rd, opts...)
 			res.ErrClass = errClass(err)
+			if err != nil {
+				res.ErrText, res.ErrChain = err.Error(), errChain(err)
+			}
 			res.Files = []string{canonFile(f)}
 		} else {
 			fs, err := fit.DecodeChained(rd, opts...)
 			res.ErrClass = errClass(err)
+			if err != nil {
+				res.ErrText, res.ErrChain = err.Error(), errChain(err)
+			}
 			for _, f := range fs {
 				res.Files = append(res.Files, canonFile(f))
 			}
 		}
 		res.Pos = rd.pos
 	}()
-	return res.observable()
+	return res.withError()
 }
 
 func runC09Race(args []string) int {
